@@ -1110,6 +1110,9 @@ Proof.
     eapply rsh_trans; [apply rsh_scope_timeout|apply rsh_same; reflexivity].
 Qed.
 
+Lemma filter_len {A} (P : A -> bool) l : length (filter P l) <= length l.
+Proof. induction l as [|x l IH]; cbn; [lia|]. destruct (P x); cbn; lia. Qed.
+
 Lemma position_step s h pre h0 post :
   ready s = h :: pre ++ h0 :: post -> nontimer h0 = true ->
   match h with HStep t' | HWake t' _ => simple_ctl (k_ctl (tasks s t')) = true | _ => True end ->
@@ -1117,5 +1120,208 @@ Lemma position_step s h pre h0 post :
 Proof.
   intros E H0 Hk. destruct (rsh_run_head s h _ E Hk) as [P [new [Er HP]]].
   rewrite filter_app in Er. cbn [filter] in Er. rewrite (HP h0 H0) in Er.
-  exists (filter P pre), (filter P post ++ new). split; [rewrite Er, <- app_assoc; reflexivity|apply filter_length_le].
+  exists (filter P pre), (filter P post ++ new). split; [rewrite Er, <- app_assoc; reflexivity|apply filter_len].
+Qed.
+
+Lemma fstate_pending_dec (x : fstate) : x = FPend \/ x <> FPend.
+Proof. destruct x; [now left| | |]; right; discriminate. Qed.
+
+(* ---------------- the two-cycle bound ---------------- *)
+Definition wait_ctl (k : ctl) : bool :=
+  match k with CIdle | CYield YCheckpoint | CYield YCkIf | CSleep _ _ | CHandleWait _ _ => true | _ => false end.
+
+Section Latency.
+  Variables (t : tid) (f : fid) (c : sid).
+
+  Record LInv (s : st) : Prop := {
+    li_reach : reach_ok s;
+    li_run : running s <> Some t;
+    li_waiter : k_waiter (tasks s t) = Some f;
+    li_started : k_started (tasks s t) = true;
+    li_done : k_done (tasks s t) = None;
+    li_ctl : wait_ctl (k_ctl (tasks s t)) = true;
+    li_cases : (f_st (futs s f) = FPend /\ k_must (tasks s t) = false /\ trk t c s) \/
+               (f_st (futs s f) <> FPend /\ In (HWake t f) (ready s))
+  }.
+
+  (* the next n callbacks: t's own wake-up once its future is done, or covered callbacks of others *)
+  Fixpoint cycle_ok (n : nat) (s : st) : Prop :=
+    match n with
+    | 0 => True
+    | S m => match ready s with
+             | [] => True
+             | h :: _ => (h = HWake t f /\ f_st (futs s f) <> FPend) \/
+                         (bystander t f s h /\ cycle_ok m (run_head s))
+             end
+    end.
+
+  Lemma LInv_Good s : LInv s -> Good t s.
+  Proof.
+    intros L. pose proof (reach_tree s (li_reach _ L)) as T. constructor.
+    - now apply Tree_TreeL.
+    - destruct (li_reach _ L) as [ops [_ ->]]. apply reach_kinv.
+    - apply L.
+    - intros y Ha. destruct (tr_host_act _ T y Ha) as [x [E _]]. rewrite E. discriminate.
+  Qed.
+
+  Lemma run_head_step s h r : ready s = h :: r -> run_head s = fst (step s (ARun h)).
+  Proof. intros E. unfold run_head. now rewrite E. Qed.
+
+  Lemma linv_step s h r :
+    LInv s -> ready s = h :: r -> bystander t f s h ->
+    LInv (run_head s) /\
+    (h = HDeliver c -> f_st (futs (run_head s) f) <> FPend) /\
+    (f_st (futs s f) <> FPend -> f_st (futs (run_head s) f) <> FPend).
+  Proof.
+    intros L E B. pose proof (LInv_Good s L) as G.
+    assert (Nd : k_ctl (tasks s t) <> CDone).
+    { pose proof (li_ctl _ L) as H. destruct (k_ctl (tasks s t)); try discriminate; cbn in H; congruence. }
+    destruct (callback_out t f c s h r (li_reach _ L) Nd (li_waiter _ L) E B) as [O Hd].
+    destruct (O G) as [G' [By Tp]]. pose proof (by_core _ _ _ _ By) as Ec.
+    assert (R' : reach_ok (run_head s)).
+    { rewrite (run_head_step s h r E). apply reach_ok_step; [apply L|apply B]. }
+    assert (Keep : f_st (futs s f) <> FPend -> f_st (futs (run_head s) f) <> FPend).
+    { intros Hn. now rewrite (by_done _ _ _ _ By Hn). }
+    split; [|split; [|exact Keep]].
+    - constructor.
+      + exact R'.
+      + apply G'.
+      + rewrite (tcore_waiter _ _ Ec). apply L.
+      + rewrite (tcore_started _ _ Ec). apply L.
+      + rewrite (tcore_done _ _ Ec). apply L.
+      + rewrite (tcore_ctl _ _ Ec). apply L.
+      + destruct (li_cases _ L) as [[Hp [Hm Tk]]|[Hn Hin]].
+        * assert (El : elig_t t f s) by (repeat split; try apply L; assumption).
+          destruct (by_pend _ _ _ _ By Hp (k_link _ (gd_k _ _ G) t f (li_waiter _ L) Hp) (li_waiter _ L) Hm) as [[P M]|[P I]].
+          -- left. split; [exact P|]. split; [exact M|now apply Tp].
+          -- right. now split.
+        * right. split; [now apply Keep|now apply (by_keep _ _ _ _ By)].
+    - intros Eh. destruct (li_cases _ L) as [[Hp [Hm Tk]]|[Hn _]]; [|now apply Keep].
+      apply Hd; [exact Eh|exact G| |exact Tk]. repeat split; try apply L; assumption.
+  Qed.
+
+  Definition found (tr : list (st * handle)) : Prop :=
+    exists si, In (si, HWake t f) tr /\ LInv si /\ f_st (futs si f) <> FPend.
+
+  Lemma heads_cons n s h r : ready s = h :: r -> heads (S n) s = (s, h) :: heads n (run_head s).
+  Proof. intros E. cbn. now rewrite E. Qed.
+
+  (* once the future is done: the wake-up is in the queue and stays until it runs *)
+  Lemma phase_done n : forall s, LInv s -> f_st (futs s f) <> FPend -> cycle_ok n s ->
+    found (heads n s) \/ (LInv (iter n run_head s) /\ f_st (futs (iter n run_head s) f) <> FPend).
+  Proof.
+    induction n as [|n IH]; intros s L Hn Ok; [right; now split|].
+    destruct (ready s) as [|h r] eqn:E.
+    { exfalso. destruct (li_cases _ L) as [[Hp _]|[_ Hin]]; [contradiction|]. rewrite E in Hin. destruct Hin. }
+    cbn [cycle_ok] in Ok. rewrite E in Ok. destruct Ok as [[-> _]|[B Ok]].
+    - left. exists s. split; [rewrite (heads_cons n s _ r E); now left|now split].
+    - destruct (linv_step s h r L E B) as [L' [_ Keep]].
+      destruct (IH (run_head s) L' (Keep Hn) Ok) as [[si [Hi Hs]]|Hr].
+      + left. exists si. split; [rewrite (heads_cons n s h r E); now right|exact Hs].
+      + right. exact Hr.
+  Qed.
+
+  (* a non-timer callback at position < n is run among the next n, unless t is woken first *)
+  Lemma phase_wake n : forall s pre post, LInv s -> f_st (futs s f) <> FPend ->
+    ready s = pre ++ HWake t f :: post -> length pre < n -> cycle_ok n s -> found (heads n s).
+  Proof.
+    induction n as [|n IH]; intros s pre post L Hn E Hl Ok; [lia|].
+    destruct pre as [|h pre]; cbn [app] in E.
+    - exists s. split; [rewrite (heads_cons n s _ _ E); now left|now split].
+    - cbn [cycle_ok] in Ok. rewrite E in Ok. destruct Ok as [[-> _]|[B Ok]].
+      + exists s. split; [rewrite (heads_cons n s _ _ E); now left|now split].
+      + destruct (linv_step s h _ L E B) as [L' [_ Keep]].
+        destruct (position_step s h pre (HWake t f) post E eq_refl) as [pre' [post' [E' Hl']]].
+        { destruct B as [_ [_ Hk]]. destruct h; try exact I; apply Hk. }
+        cbn [length] in Hl.
+        destruct (IH (run_head s) pre' post' L' (Keep Hn) E' ltac:(lia) Ok) as [si [Hi Hs]].
+        exists si. split; [rewrite (heads_cons n s h _ E); now right|exact Hs].
+  Qed.
+
+  (* first cycle: the delivery callback of c is reached, or the future is done before that *)
+  Lemma phase_deliver n : forall s pre post, LInv s ->
+    ready s = pre ++ HDeliver c :: post -> length pre < n -> cycle_ok n s ->
+    found (heads n s) \/ (LInv (iter n run_head s) /\ f_st (futs (iter n run_head s) f) <> FPend).
+  Proof.
+    induction n as [|n IH]; intros s pre post L E Hl Ok; [lia|].
+    destruct (fstate_pending_dec (f_st (futs s f))) as [Hp|Hn]; [|now apply phase_done].
+    destruct pre as [|h pre]; cbn [app] in E.
+    - cbn [cycle_ok] in Ok. rewrite E in Ok. destruct Ok as [[Eh _]|[B Ok]]; [discriminate|].
+      destruct (linv_step s _ _ L E B) as [L' [Hd _]]. cbn [iter].
+      destruct (phase_done n (run_head s) L' (Hd eq_refl) Ok) as [[si [Hi Hs]]|Hr].
+      + left. exists si. split; [rewrite (heads_cons n s _ _ E); now right|exact Hs].
+      + right. exact Hr.
+    - cbn [cycle_ok] in Ok. rewrite E in Ok. destruct Ok as [[_ Hd]|[B Ok]]; [contradiction|].
+      destruct (linv_step s h _ L E B) as [L' _].
+      destruct (position_step s h pre (HDeliver c) post E eq_refl) as [pre' [post' [E' Hl']]].
+      { destruct B as [_ [_ Hk]]. destruct h; try exact I; apply Hk. }
+      cbn [length] in Hl. cbn [iter].
+      destruct (IH (run_head s) pre' post' L' E' ltac:(lia) Ok) as [[si [Hi Hs]]|Hr].
+      + left. exists si. split; [rewrite (heads_cons n s h _ E); now right|exact Hs].
+      + right. exact Hr.
+  Qed.
+End Latency.
+
+Lemma heads_in n : forall s si h, In (si, h) (heads n s) -> exists r, ready si = h :: r.
+Proof.
+  induction n as [|n IH]; intros s si h H; [destruct H|]. cbn in H. destruct (ready s) as [|h0 r] eqn:E; [destruct H|].
+  destruct H as [H|H]; [inversion H; subst; now exists r|now apply (IH (run_head s))].
+Qed.
+
+Lemma wake_result t f si r :
+  k_waiter (tasks si t) = Some f -> wait_ctl (k_ctl (tasks si t)) = true -> ready si = HWake t f :: r ->
+  f_st (futs si f) <> FPend ->
+  (exists o, snd (step si (ARun (HWake t f))) = RExc (ECancel o)) \/
+  (exists v, f_st (futs si f) = FRes v) \/ (exists e, f_st (futs si f) = FExc e).
+Proof.
+  intros Hw Hc E Hn. destruct (f_st (futs si f)) as [|v|e|o] eqn:Ef; [now elim Hn|right; left; now exists v|right; right; now exists e|].
+  left. exists o. cbn [step actor]. unfold run_handle. rewrite E. cbn [existsb remove_first]. rewrite handle_eqb_refl.
+  cbn [orb negb]. set (s1 := set_ready si r).
+  unfold resume. pose proof (incoming_ctl s1 t (Some f)) as Ec.
+  assert (Hi : snd (incoming s1 t (Some f)) = Some (ECancel o)).
+  { unfold incoming. cbn [snd]. change (futs s1 f) with (futs si f). rewrite Ef.
+    destruct (k_must (tasks s1 t)); reflexivity. }
+  destruct (incoming s1 t (Some f)) as [s2 inc]. cbn [fst snd] in *. subst inc. rewrite Ec.
+  change (tasks s1 t) with (tasks si t).
+  destruct (k_ctl (tasks si t)) as [| |[| |x]| | | | | | |]; try discriminate; reflexivity.
+Qed.
+
+(* C03 cancel_latency_le_2_cycles.  At a cycle boundary of a reachable state, task t is blocked on the pending
+   future f (not yet cancelled: no request is pending on it), it has started, and it reaches the cancelled,
+   hosted scope c.  If the callbacks of this and the next FIFO cycle are of the covered kinds (cycle_ok: t's own
+   wake-up once f is done; or, for other tasks, delivery, task-done, sleep-timer and deadline callbacks and the
+   resumption of tasks that go straight back to their program or yield again), then within these two cycles t's
+   wake-up runs, and it raises a cancellation (with the origin of whichever scope delivered first: c or a nearer
+   scope cancelled meanwhile) unless somebody completed f with a result or an exception first. *)
+Theorem cancel_latency_le_2_cycles t f c s :
+  reach_ok s -> running s <> Some t ->
+  s_cancelled (scopes s c) = true -> s_host (scopes s c) <> None -> reaches s t c ->
+  k_must (tasks s t) = false -> k_started (tasks s t) = true ->
+  k_waiter (tasks s t) = Some f -> f_st (futs s f) = FPend -> wait_ctl (k_ctl (tasks s t)) = true ->
+  cycle_ok t f (length (ready s)) s -> cycle_ok t f (length (ready (fifo_cycle s))) (fifo_cycle s) ->
+  exists si,
+    In (si, HWake t f) (heads (length (ready s)) s ++ heads (length (ready (fifo_cycle s))) (fifo_cycle s)) /\
+    ((exists o, snd (step si (ARun (HWake t f))) = RExc (ECancel o)) \/
+     (exists v, f_st (futs si f) = FRes v) \/ (exists e, f_st (futs si f) = FExc e)).
+Proof.
+  intros R Hr Cc Hh Rt Hm Hs Hw Hp Hctl Ok1 Ok2.
+  assert (L : LInv t f c s).
+  { constructor; try assumption; [apply Rt|]. left. split; [exact Hp|]. split; [exact Hm|]. exact (conj Rt (conj Cc Hh)). }
+  destruct (delivery_alive s c R Cc Hh (ex_intro _ t Rt)) as [_ Hin].
+  destruct (in_split _ _ Hin) as [pre [post E]].
+  assert (Hl : length pre < length (ready s)) by (rewrite E, app_length; cbn; lia).
+  assert (Fin : forall n s0, found t f c (heads n s0) ->
+            exists si, In (si, HWake t f) (heads n s0) /\
+              ((exists o, snd (step si (ARun (HWake t f))) = RExc (ECancel o)) \/
+               (exists v, f_st (futs si f) = FRes v) \/ (exists e, f_st (futs si f) = FExc e))).
+  { intros n s0 [si [Hi [Li Hn]]]. exists si. split; [exact Hi|].
+    destruct (heads_in n s0 si _ Hi) as [r Er]. apply (wake_result t f si r); try assumption; apply Li. }
+  destruct (phase_deliver t f c (length (ready s)) s pre post L E Hl Ok1) as [F|[L1 Hn1]].
+  - destruct (Fin _ _ F) as [si [Hi Hres]]. exists si. split; [apply in_or_app; now left|exact Hres].
+  - fold (fifo_cycle s) in L1, Hn1.
+    destruct (li_cases _ _ _ _ L1) as [[Hp1 _]|[_ Hin1]]; [contradiction|].
+    destruct (in_split _ _ Hin1) as [pre1 [post1 E1]].
+    assert (Hl1 : length pre1 < length (ready (fifo_cycle s))) by (rewrite E1, app_length; cbn; lia).
+    pose proof (phase_wake t f c _ (fifo_cycle s) pre1 post1 L1 Hn1 E1 Hl1 Ok2) as F.
+    destruct (Fin _ _ F) as [si [Hi Hres]]. exists si. split; [apply in_or_app; now right|exact Hres].
 Qed.
